@@ -121,6 +121,34 @@ pub fn run(ctx: &Ctx) -> Report {
 		}
 		r.count("initial_states", frontier.len() as u64);
 		let mut vs = Vec::new();
+		// one step with every printable ASCII character as (part of) the pushed segment, from a few
+		// initial states (the disambiguation rules of push look at specific characters)
+		{
+			let dseg = refs.dfa(f, Kind::Segment);
+			for arg in domains::ascii_sweep(&["X", "aX", "Xa", "X:", "Xa:b"]) {
+				if !ref_valid(&dseg, f, Kind::Segment, &arg) {
+					continue;
+				}
+				for init in ["", "a", "/", "/a", "a/", ".."] {
+					let init = domains::b(init);
+					let mut t = prefix.clone();
+					t.extend_from_slice(&init);
+					t.extend_from_slice(suffix);
+					if !(ref_valid(&dref, f, Kind::RiRef, &t) && syntax::split(&t).path == init) {
+						continue;
+					}
+					for op in [Op::Push(arg.clone()), Op::SymPush(arg.clone())] {
+						r.transitions += 1;
+						r.evaluations += 1;
+						r.count("ascii_sweep_transitions", 1);
+						let _ = by_family!(f, c10_step(prefix, suffix, &init, &[], &init, &op, &mut vs));
+						for v in vs.drain(..) {
+							r.violate(v);
+						}
+					}
+				}
+			}
+		}
 		for d in 0..depth {
 			let mut next = Vec::new();
 			for (state, init, hist) in &frontier {
